@@ -617,3 +617,532 @@ def all_chains():
 
 
 SLOW = ("lzma2-p9e", "lzma2-p6", "lzma-p6", "zstd-19", "brotli-11", "default", "ppmd-o32-m26")
+
+
+# ======================================================================================================
+# (b) contract validation of the real codec wrapper classes
+# ======================================================================================================
+def codec_pairs():
+    """name -> (make_encoder, make_decoder(unpacksize), honours_max_length)"""
+    import bz2
+    import lzma
+    import py7zr.compressor as C
+    ppmd_props = C.PpmdCompressor.encode_filter_properties({"order": 6, "mem": 20})
+    zv = __import__("pyzstd").zstd_version_info
+    zprops = bytes([zv[0], zv[1], 3, 0, 0])
+
+    def lz(filters):
+        return (lambda: C.LZMA1Compressor(filters)), (lambda n: lzma.LZMADecompressor(format=lzma.FORMAT_RAW, filters=filters))
+    out = {
+        "copy": (lambda: C.CopyCompressor(), lambda n: C.CopyDecompressor()),
+        "deflate": (lambda: C.DeflateCompressor(), lambda n: C.DeflateDecompressor()),
+        "deflate64": (lambda: C.Deflate64Compressor(), lambda n: C.Deflate64Decompressor()),
+        "bzip2": (lambda: bz2.BZ2Compressor(), lambda n: bz2.BZ2Decompressor()),
+        "zstd": (lambda: C.ZstdCompressor(3), lambda n: C.ZstdDecompressor(zprops, 1 << 20)),
+        "brotli": (lambda: C.BrotliCompressor(5), lambda n: C.BrotliDecompressor(bytes([1, 0, 5]), 1 << 20)),
+        "ppmd": (lambda: C.PpmdCompressor(ppmd_props), lambda n: C.PpmdDecompressor(ppmd_props)),
+        "x86": (lambda: C.BCJEncoder(), lambda n: C.BCJDecoder(n)),
+        "arm": (lambda: C.BcjArmEncoder(), lambda n: C.BcjArmDecoder(n)),
+        "armt": (lambda: C.BcjArmtEncoder(), lambda n: C.BcjArmtDecoder(n)),
+        "ppc": (lambda: C.BcjPpcEncoder(), lambda n: C.BcjPpcDecoder(n)),
+        "sparc": (lambda: C.BcjSparcEncoder(), lambda n: C.BcjSparcDecoder(n)),
+        "lzma2": lz([{"id": lzma.FILTER_LZMA2, "preset": 1}]),
+        "lzma1": (lambda: C.LZMA1Compressor([{"id": lzma.FILTER_LZMA1, "preset": 1}]),
+                  lambda n: C.LZMA1Decompressor([{"id": lzma.FILTER_LZMA1, "preset": 1}], n)),
+        "delta+lzma2": lz([{"id": lzma.FILTER_DELTA, "dist": 1}, {"id": lzma.FILTER_LZMA2, "preset": 1}]),
+        "x86+lzma2": lz([{"id": lzma.FILTER_X86}, {"id": lzma.FILTER_LZMA2, "preset": 1}]),
+        "ia64+lzma2": lz([{"id": lzma.FILTER_IA64}, {"id": lzma.FILTER_LZMA2, "preset": 1}]),
+    }
+    return out
+
+
+def _aes_pair(pw="pässwörd"):
+    import py7zr.compressor as C
+    enc = C.AESCompressor(pw)
+    props = enc.encode_filter_properties()
+    return enc, (lambda n: C.AESDecompressor(props, pw, 1 << 20))
+
+
+def contract_case(arg):
+    """one case, run in a sandbox child (a codec may crash the interpreter): encode under a random chunking,
+    decode under a random chunking / max_length pattern as SevenZipDecompressor would drive it; returns a verdict"""
+    from harness import arch
+    name, seed, n, texture = arg["codec"], arg["seed"], arg["n"], arg["texture"]
+    rng = random.Random(seed)
+    data = arch.pattern_bytes(rng, n, texture)
+    if name == "aes":
+        enc, mkdec = _aes_pair()
+    else:
+        mkenc, mkdec = codec_pairs()[name]
+        enc = mkenc()
+
+    def encode(e, cuts):
+        out, pos = bytearray(), 0
+        for k in cuts:
+            out += e.compress(data[pos:pos + k])
+            pos += k
+        out += e.compress(data[pos:])
+        out += e.flush()
+        return bytes(out)
+    cuts = [rng.choice([0, 1, 2, 7, 16, 17, 100, 4096, 32768, 70000]) for _ in range(rng.randrange(0, 12))]
+    blob = encode(enc, cuts)
+    res = {"packed": len(blob)}
+    if name != "aes":
+        res["chunking_independent"] = blob == encode(codec_pairs()[name][0](), [])
+    # decode: feed chunks (sizes from a schedule), each with a max_length, then empty chunks until enough or stalled
+    dec = mkdec(n)
+    want = data if name != "aes" else data + bytes((-len(data)) % 16)
+    rs = rng.choice([1, 7, 16, 17, 100, 4096, 1 << 20]) if name != "aes" else rng.choice([16, 17, 100, 4096, 1 << 20])
+    out, pos, stalled, over = bytearray(), 0, 0, False
+    while len(out) < len(want) and stalled < 3:
+        ch = blob[pos:pos + rs]
+        pos += len(ch)
+        ml = rng.choice([-1, len(want) - len(out), max(1, (len(want) - len(out)) // 3), 1])
+        got = dec.decompress(ch, ml)
+        if ml >= 0 and len(got) > ml:
+            over = True
+        out += got
+        stalled = stalled + 1 if (len(ch) == 0 and len(got) == 0) else 0
+    res["honours_max_length"] = not over
+    res["prefix_ok"] = bytes(out[:len(want)]) == want[:len(out)] if len(out) <= len(want) else bytes(out[:len(want)]) == want
+    res["complete"] = len(out) >= len(want)
+    res["got"] = len(out)
+    return res
+
+
+def check_contracts(ctx, rep, rng, tier):
+    from harness.sandbox import run_sandboxed
+    names = sorted(codec_pairs()) + ["aes"]
+    sizes = [0, 1, 15, 16, 17, 100, 4097, 32769, 70001] + ([200003] if tier == "quick" else [200003, 1048577, 2097153])
+    jobs = []
+    per = 5 if tier == "quick" else 40
+    for name in names:
+        for i in range(per):
+            n = sizes[(i * 3 + len(name)) % len(sizes)] if i < len(sizes) else rng.choice(sizes)
+            if name in ("ppmd",) and i % 2 == 0:
+                n = rng.choice([70001, 200003])
+            jobs.append({"codec": name, "seed": rng.getrandbits(32), "n": n,
+                         "texture": rng.choice(["random", "period", "text", "code", "zeros"])})
+    table = rep.extra.setdefault("codec_contracts", {})
+
+    def one(job):
+        return job, run_sandboxed("harness.c01:contract_case", job, timeout=60, mem_mb=3000)
+    with ThreadPoolExecutor(16) as ex:
+        results = list(ex.map(one, jobs))
+    faults = {}
+    for job, out in results:
+        name = job["codec"]
+        t = table.setdefault(name, {"cases": 0, "chunking_independent": True, "honours_max_length": True, "faults": 0})
+        t["cases"] += 1
+        rep.count(("contract", name, job["seed"], job["n"]), nontrivial=job["n"] > 0)
+        if out["status"] == "ok":
+            v = out["value"]
+            if v.get("chunking_independent") is False:
+                t["chunking_independent"] = False
+            if not v["honours_max_length"]:
+                t["honours_max_length"] = False
+            if v["prefix_ok"] and v["complete"]:
+                continue
+            what = "decoder output is not the encoded input" if not v["prefix_ok"] else \
+                "decoder stalls after %d of %d bytes with all input given" % (v["got"], job["n"])
+            outcome = "wrong-bytes" if not v["prefix_ok"] else "stall"
+        elif out["status"] == "exc":
+            what, outcome = "raises %s: %s" % (out["type"], out["msg"][:80]), out["type"]
+        else:
+            what, outcome = "child %s (rc=%s)" % (out["status"], out.get("rc")), out["status"]
+        t["faults"] += 1
+        faults.setdefault(name, []).append(outcome)
+        rep.violation("codec contract: %s round trip of %d %s bytes through the wrapper classes alone: %s" % (name, job["n"], job["texture"], what),
+                      {"kind": "codec-contract", **job, "outcome": outcome},
+                      match_keys={"kind": "codec-contract", "codec": name, "large": job["n"] >= 32768})
+    ctx["codec_faults"] = faults
+
+
+# ======================================================================================================
+# (c) end-to-end sessions through the public API
+# ======================================================================================================
+TEXTURES = ["random", "period", "text", "code", "zeros"]
+
+
+def rand_component(rng):
+    pools = [(0x21, 0x7E), (0x21, 0x7E), (0x20, 0x20), (0x01, 0x1F), (0x7F, 0xFF), (0x100, 0x2FFF), (0x3000, 0xD7FF), (0xE000, 0xFFFD),
+             (0x10000, 0x10FFFF)]
+    while True:
+        n = rng.choice([1, 1, 2, 3, 8, 20])
+        out = []
+        while len(out) < n:
+            lo, hi = rng.choice(pools)
+            c = rng.randrange(lo, hi + 1)
+            if c in (0x2F, 0x5C, 0):
+                continue
+            out.append(chr(c))
+        s = "".join(out)
+        if rng.random() < 0.1:
+            s = "." + s
+        if s not in (".", ".."):
+            return s
+
+
+def rand_name(rng):
+    comps = [rand_component(rng) for _ in range(rng.choice([1, 1, 1, 2, 2, 3, 6]))]
+    if rng.random() < 0.06:
+        comps[0] = rng.choice(["c:", "C:x", "z:"]) + comps[0]
+    return "/".join(comps)
+
+
+def member_lengths(rng, block, tier):
+    base = [0, 1, 15, 16, 17, 31, 32, 33]
+    b = block
+    around = [b - 1, b, b + 1, 2 * b - 1, 2 * b, 2 * b + 1]
+    return base, [x for x in around if x >= 0]
+
+
+def gen_spec(rng, tier, idx, chains, fast_only=False):
+    """one session description (JSON-able); member bytes are regenerated from (n, texture, seed)"""
+    names = sorted(chains)
+    if fast_only:
+        names = [n for n in names if n.split("+")[-1 if not n.endswith("+aes") else -2] in ("copy", "zstd", "deflate") or n in ("copy+aes", "lzma2", "aes")]
+    chain = names[idx % len(names)] if idx < 2 * len(names) and not fast_only else rng.choice(names)
+    aes = chain.endswith("aes")
+    block = rng.choice([None, None, 16, 17, 4096, 32768] + ([7] if aes and rng.random() < 0.3 else []))
+    if fast_only:
+        block = None
+    limit = rng.choice([None, None, 1, 7, 4096])
+    eff_block = block or (1 << 20)
+    base, around = member_lengths(rng, eff_block, tier)
+    nm = rng.choice([0, 1, 1, 2, 3, 5]) if not fast_only else rng.choice([1, 2])
+    members, seen = [], set()
+    total = 0
+    for _ in range(nm):
+        while True:
+            name = rand_name(rng)
+            if name not in seen:
+                seen.add(name)
+                break
+        if rng.random() < (0.55 if not fast_only else 1.0) and (eff_block <= 32768 or fast_only):
+            n = rng.choice(around)
+        else:
+            n = rng.choice(base + [rng.randrange(0, 3000)])
+        if limit in (1, 7) and n > 20000:
+            n = rng.choice(base)       # a chunk limit of 1 byte on a megabyte member is a million calls
+        if chain in SLOW and n > 70000:
+            n = rng.choice(base + [4097])
+        total += n
+        members.append([name, {"n": n, "texture": rng.choice(TEXTURES), "seed": rng.getrandbits(32)}])
+    target = rng.choice(["path", "bytesio", "fileobj", "rawfile", "multivolume", "multivolume"])
+    volume = rng.choice([64, 70, 100, 257, 1000, 4096, 4100])
+    if target == "multivolume" and total // volume > 3000:
+        volume = 4096 if total // 4096 <= 3000 else 1 << 20
+    header = rng.choice(["raw", "encoded", "encoded", "encrypted"] if aes or rng.random() < 0.5 else ["raw", "encoded"])
+    password = "pässwörd-%d" % rng.randrange(100) if (aes or header == "encrypted" or rng.random() < 0.1) else None
+    if header == "encrypted" and password is None:
+        header = "encoded"
+    return {"chain": chain, "password": password, "header": header, "target": target, "volume": volume, "block": block, "limit": limit,
+            "members": members, "api": rng.choice(["writestr", "writestr", "writef", "writef-buffered"])}
+
+
+def member_bytes(m):
+    from harness import arch
+    return arch.pattern_bytes(random.Random(m["seed"]), m["n"], m["texture"])
+
+
+class _Patched:
+    def __init__(self, block, limit):
+        self.block, self.limit = block, limit
+
+    def __enter__(self):
+        import py7zr.compressor as C
+        import py7zr.py7zr as P
+        self.saved = (C.get_default_blocksize, P.get_default_blocksize, P.get_memory_limit)
+        if self.block:
+            C.get_default_blocksize = lambda: self.block
+            P.get_default_blocksize = lambda: self.block
+        if self.limit:
+            P.get_memory_limit = lambda: self.limit
+
+    def __exit__(self, *a):
+        import py7zr.compressor as C
+        import py7zr.py7zr as P
+        C.get_default_blocksize, P.get_default_blocksize, P.get_memory_limit = self.saved
+
+
+def _read_back(src, password):
+    import py7zr
+    from harness import arch
+    with py7zr.SevenZipFile(src, "r", password=password) as z:
+        names = z.getnames()
+        fac = arch.Collect()
+        z.extractall(factory=fac)
+    return names, fac.as_list()
+
+
+def run_session(spec):
+    """write, reopen, compare.  Returns {"status": "ok"} or {"status": "fail", "stage", "exc", "msg", ...}"""
+    import multivolumefile
+    import py7zr
+    chains = all_chains()
+    filters = chains[spec["chain"]]
+    members = [(name, member_bytes(m)) for name, m in spec["members"]]
+    tmp = tempfile.mkdtemp(prefix="c01-")
+    info = {"packsize": None}
+    try:
+        with _Patched(spec["block"], spec["limit"]):
+            path = os.path.join(tmp, "a.7z")
+            kind = spec["target"]
+            bio = None
+            stage = "write"
+            try:
+                if kind == "path":
+                    dest, closer = path, None
+                elif kind == "bytesio":
+                    dest = bio = io.BytesIO()
+                    closer = None
+                elif kind == "fileobj":
+                    dest = closer = open(path, "w+b")
+                elif kind == "rawfile":
+                    dest = closer = open(path, "w+b", buffering=0)
+                else:
+                    dest = closer = multivolumefile.open(path, "wb", volume=spec["volume"])
+                try:
+                    with py7zr.SevenZipFile(dest, "w", filters=filters, password=spec["password"],
+                                            header_encryption=spec["header"] == "encrypted") as z:
+                        if spec["header"] == "raw":
+                            z.set_encoded_header_mode(False)
+                        for i, (name, data) in enumerate(members):
+                            if spec["api"] == "writestr":
+                                z.writestr(data, name)
+                            elif spec["api"] == "writef":
+                                z.writef(io.BytesIO(data), name)
+                            else:
+                                src = os.path.join(tmp, "src%d" % i)
+                                with open(src, "wb") as f:
+                                    f.write(data)
+                                with open(src, "rb") as f:
+                                    z.writef(f, name)
+                        stage = "close"
+                    info["packsize"] = None
+                finally:
+                    if closer is not None:
+                        closer.close()
+                stage = "read"
+                if kind == "path":
+                    names, prods = _read_back(path, spec["password"])
+                elif kind == "bytesio":
+                    bio.seek(0)
+                    names, prods = _read_back(bio, spec["password"])
+                elif kind == "fileobj":
+                    with open(path, "rb") as f:
+                        names, prods = _read_back(f, spec["password"])
+                elif kind == "rawfile":
+                    with open(path, "rb", buffering=0) as f:
+                        names, prods = _read_back(f, spec["password"])
+                else:
+                    info["volumes"] = len(os.listdir(tmp))
+                    with multivolumefile.open(path, "rb") as mv:
+                        names, prods = _read_back(mv, spec["password"])
+            except Exception as e:  # noqa
+                out = {"status": "fail", "stage": stage, "exc": type(e).__name__, "msg": str(e)[:160],
+                       "where": traceback.extract_tb(e.__traceback__)[-1].name, **info}
+                if kind == "multivolume" and stage == "read":
+                    # does the same archive read back when the volumes are presented as one stream with full reads?
+                    try:
+                        vols = sorted(p for p in os.listdir(tmp) if p.startswith("a.7z."))
+                        whole = b"".join(open(os.path.join(tmp, v), "rb").read() for v in vols)
+                        names, prods = _read_back(io.BytesIO(whole), spec["password"])
+                        out["fullread_ok"] = names == [n for n, _ in members] and prods == [(n, d) for n, d in members]
+                        if out["fullread_ok"]:
+                            out["packsize"] = _packsize(whole, spec["password"])
+                    except Exception as e2:  # noqa
+                        out["fullread_ok"] = False
+                        out["fullread_exc"] = "%s: %s" % (type(e2).__name__, str(e2)[:100])
+                return out
+        want_names = [n for n, _ in members]
+        if names != want_names:
+            return {"status": "fail", "stage": "names", "exc": "", "msg": "getnames() = %r, written %r" % (names[:4], want_names[:4]), **info}
+        if [n for n, _ in prods] != want_names:
+            return {"status": "fail", "stage": "product-names", "exc": "",
+                    "msg": "delivered under %r, written %r" % ([n for n, _ in prods][:4], want_names[:4]), **info}
+        for (n, got), (_, want) in zip(prods, members):
+            if got != want:
+                i = next((k for k in range(min(len(got), len(want))) if got[k] != want[k]), min(len(got), len(want)))
+                return {"status": "fail", "stage": "content", "exc": "",
+                        "msg": "member %r: %d bytes delivered, %d written, first difference at %d" % (n, len(got), len(want), i), **info}
+        return {"status": "ok", **info}
+    finally:
+        shutil.rmtree(tmp, ignore_errors=True)
+
+
+def _packsize(blob, password):
+    import py7zr
+    with py7zr.SevenZipFile(io.BytesIO(blob), "r", password=password) as z:
+        ms = z.header.main_streams
+        return None if ms is None else int(ms.packinfo.packsizes[0])
+
+
+def batch_worker(specs):
+    out = []
+    for s in specs:
+        t = time.time()
+        try:
+            r = run_session(s)
+        except BaseException as e:  # noqa
+            r = {"status": "fail", "stage": "harness", "exc": type(e).__name__, "msg": str(e)[:200]}
+        r["t"] = round(time.time() - t, 2)
+        out.append(r)
+    return out
+
+
+def run_specs(specs, per_batch, timeout_one=40):
+    """every session in a child process (a codec may crash or the extraction loop may spin); a batch that dies is
+    re-run one by one to find the session responsible"""
+    from harness.sandbox import run_sandboxed
+    batches = [specs[i:i + per_batch] for i in range(0, len(specs), per_batch)]
+
+    def do(batch):
+        res = run_sandboxed("harness.c01:batch_worker", batch, timeout=timeout_one * len(batch) / 2 + 20, mem_mb=4000)
+        if res["status"] == "ok":
+            return list(zip(batch, res["value"]))
+        out = []
+        for s in batch:
+            r = run_sandboxed("harness.c01:batch_worker", [s], timeout=timeout_one, mem_mb=4000)
+            if r["status"] == "ok":
+                out.append((s, r["value"][0]))
+            else:
+                out.append((s, {"status": "fail", "stage": "process", "exc": r["status"], "msg": "child %s rc=%s %s" % (
+                    r["status"], r.get("rc"), (r.get("stderr") or "")[-120:])}))
+        return out
+    with ThreadPoolExecutor(16) as ex:
+        parts = list(ex.map(do, batches))
+    return [x for p in parts for x in p]
+
+
+def classify(ctx, spec, r):
+    """(description, match_keys) of a failed session"""
+    model = ctx["model"]
+    chain = spec["chain"]
+    parts = chain.split("+")
+    aes = chain.endswith("aes")
+    total = sum(m["n"] for _, m in spec["members"])
+    keys = {"kind": "roundtrip", "chain": chain, "stage": r["stage"], "exc": r["exc"], "target": spec["target"]}
+    desc = "%s %s %s" % (r["stage"], r["exc"], r["msg"])
+    if spec["target"] == "multivolume" and r["stage"] == "read" and r.get("fullread_ok"):
+        # the archive is intact: the same bytes read back through a stream that never returns short reads
+        where = "aes" if (r["exc"] == "ValueError" and "16 byte" in r["msg"]) else "header"
+        keys = {"kind": "short-read", "where": where}
+        desc = "multi-volume archive (volume size %d, %s volumes) is written correctly (reads back as one stream) but through " \
+               "multivolumefile, whose read() stops at volume boundaries, reopening fails: %s" % (spec["volume"], r.get("volumes"), desc)
+        if where == "aes" and model is not None and r.get("packsize"):
+            bs = spec["block"] or (1 << 20)
+            pred = model.call("mv_chunks_t", [100000, 32, r["packsize"], bs, spec["volume"]])
+            keys["model_predicts"] = "raise" if pred[1] == 0 else "ok"
+        return desc, keys
+    if aes and spec["block"] is not None and spec["block"] < 16 and r["exc"] == "ValueError" and "16 byte" in r["msg"]:
+        keys = {"kind": "aes-small-block", "block": spec["block"]}
+        return "I/O block size %d < 16 with 7zAES: AESDecompressor receives chunks that leave 0 < residue+chunk < 16: %s" % (spec["block"], desc), keys
+    if aes and "brotli" in parts and r["stage"] == "read" and r["exc"] == "error":
+        keys = {"kind": "aes-padding", "codec": "brotli"}
+        return "brotli followed by 7zAES: the zero padding AES adds to the packed brotli stream is handed to the brotli decoder " \
+               "(the gate on _unpacksizes does not trim it): %s" % desc, keys
+    if any(p.startswith("ppmd") for p in parts) and total >= 32768 and (
+            r["exc"] in ("crash", "ValueError", "timeout") or r["stage"] in ("content", "process")):
+        if ctx.get("codec_faults", {}).get("ppmd"):
+            keys = {"kind": "codec-fault", "codec": "ppmd"}
+            return "PPMd member data of %d bytes: pyppmd's decoder fails on its own encoder's output (the codec contract " \
+                   "validation shows the same without py7zr's containers): %s" % (total, desc), keys
+    return desc, keys
+
+
+def check_e2e(ctx, rep, rng, tier):
+    chains = all_chains()
+    n = 520 if tier == "quick" else 11000
+    specs = [gen_spec(rng, tier, i, chains) for i in range(n)]
+    # default block size with members around the block size: fast chains only
+    nbig = 28 if tier == "quick" else 400
+    specs += [gen_spec(rng, tier, i, chains, fast_only=True) for i in range(nbig)]
+    if tier != "quick":
+        # slower codecs at the default block size
+        for i in range(160):
+            s = gen_spec(rng, tier, i, chains, fast_only=True)
+            s["chain"] = rng.choice(["lzma2", "lzma", "bzip2", "ppmd", "brotli", "x86+lzma2", "delta+lzma2", "lzma2+aes", "x86+bzip2", "deflate64"])
+            specs.append(s)
+    # the public-API scenario of the AES short-chunk refutation at the DEFAULT block size:
+    # volumes of 1 MiB + 4 bytes, a little over 2 MiB of encrypted data
+    specs.append({"chain": "copy+aes", "password": "pw", "header": "encoded", "target": "multivolume", "volume": (1 << 20) + 4,
+                  "block": None, "limit": None, "api": "writestr",
+                  "members": [["big.bin", {"n": 2097200 - 32 - 16, "texture": "random", "seed": 7}], ["tail", {"n": 40, "texture": "text", "seed": 8}]]})
+    results = run_specs(specs, per_batch=12 if tier == "quick" else 25)
+    ok = 0
+    for spec, r in results:
+        nontrivial = any(m["n"] > 0 for _, m in spec["members"])
+        rep.count(("e2e", json.dumps(spec, sort_keys=True)), nontrivial=nontrivial)
+        rep.dist("e2e_chain", spec["chain"])
+        rep.dist("e2e_target", spec["target"])
+        rep.dist("e2e_header", spec["header"])
+        rep.dist("e2e_block", spec["block"])
+        rep.dist("e2e_limit", spec["limit"])
+        rep.dist("e2e_members", len(spec["members"]))
+        for _, m in spec["members"]:
+            rep.dist("e2e_member_len", _len_class(m["n"], spec["block"] or (1 << 20)))
+        if r["status"] == "ok":
+            ok += 1
+            continue
+        desc, keys = classify(ctx, spec, r)
+        rep.dist("e2e_failure_kind", keys["kind"])
+        rep.violation("session [chain %s, password %s, header %s, target %s, block %s, chunk limit %s, %d members, %s]: %s" % (
+            spec["chain"], "yes" if spec["password"] else "no", spec["header"], spec["target"], spec["block"], spec["limit"],
+            len(spec["members"]), spec["api"], desc), {"kind": "session", "spec": spec, "result": r}, match_keys=keys)
+    rep.sample({"session": specs[0]})
+    rep.extra["e2e_sessions"] = len(specs)
+    rep.extra["e2e_ok"] = ok
+
+
+def _len_class(n, b):
+    if n in (0, 1, 15, 16, 17, 31, 32, 33):
+        return str(n)
+    for k, name in ((b - 1, "block-1"), (b, "block"), (b + 1, "block+1"), (2 * b - 1, "2block-1"), (2 * b, "2block"), (2 * b + 1, "2block+1")):
+        if n == k:
+            return name
+    return "other<%d" % (10 ** len(str(n)))
+
+
+# ======================================================================================================
+def run(ctx):
+    rep, tier = ctx["rep"], ctx["tier"]
+    rng = random.Random(ctx["seed"])
+    rep.cov["rule"] = ("correspondence: random call sequences on real objects with toy stages, distinct by (stages, sizes, schedule); "
+                       "contracts: every codec wrapper x lengths 0..2 MiB x textures x chunkings; sessions: every accepted chain x "
+                       "header mode x target kind x block size x chunk limit x boundary-directed member lengths; non-trivial = "
+                       "some member/packed stream non-empty; distinct by the whole case description")
+    q = tier == "quick"
+    if ctx["model"] is not None:
+        for part, n in ((corr_crc, 60 if q else 400), (corr_aes, 1500 if q else 20000), (corr_decompress, 3000 if q else 40000),
+                        (corr_worker, 1500 if q else 20000), (corr_compress, 2000 if q else 30000), (corr_unpacksizes, 300 if q else 3000)):
+            try:
+                part(ctx, rep, rng, n)
+            except Exception as e:  # noqa
+                rep.violation("%s raised %s: %s" % (part.__name__, type(e).__name__, e),
+                              {"kind": "exception", "part": part.__name__, "trace": traceback.format_exc()[-1500:]},
+                              concrete=False, match_keys={"kind": "exception"})
+    for part in (check_contracts, check_e2e):
+        try:
+            part(ctx, rep, rng, tier)
+        except Exception as e:  # noqa
+            rep.violation("%s raised %s: %s" % (part.__name__, type(e).__name__, e),
+                          {"kind": "exception", "part": part.__name__, "trace": traceback.format_exc()[-1500:]},
+                          concrete=False, match_keys={"kind": "exception"})
+
+
+def replay(d):
+    from harness.sandbox import run_sandboxed
+    r = d["replay"]
+    if r.get("kind") == "session":
+        out = run_sandboxed("harness.c01:batch_worker", [r["spec"]], timeout=120, mem_mb=4000)
+        print(json.dumps(out, default=str)[:1500])
+        return 0 if out["status"] == "ok" and out["value"][0]["status"] == "ok" else 1
+    if r.get("kind") == "codec-contract":
+        job = {k: r[k] for k in ("codec", "seed", "n", "texture")}
+        out = run_sandboxed("harness.c01:contract_case", job, timeout=120, mem_mb=4000)
+        print(json.dumps(out, default=str)[:1500])
+        return 0 if out["status"] == "ok" and out["value"]["prefix_ok"] and out["value"]["complete"] else 1
+    print(json.dumps(r, default=str)[:3000])
+    return 2
